@@ -327,6 +327,7 @@ class Ctx(object):
         self.solver_calls = 0
         self.assumed_models = set()  # names of library models used
         self.inlined = set()         # qualified names of functions interpreted
+        self.generators = []         # interpreted generators created on this path (closed at path end)
         self.stash = {}              # harness objects created on this path (symbolic inputs, ghost state)
         self.truncated = 0           # >0: part of the input space of this path was cut off (bounded)
 
@@ -449,7 +450,14 @@ def explore(run, max_paths=5000, rlimit=2000000):
                 yield PathResult(ctx, "raise", e, index)
                 index += 1
         finally:
-            Ctx.current = None
+            try:
+                for g in list(ctx.generators):
+                    try:
+                        g.close()
+                    except BaseException:
+                        pass
+            finally:
+                Ctx.current = None
         if index > max_paths:
             raise PathLimit("more than %d paths" % max_paths)
         tr = ctx.trace
